@@ -28,6 +28,8 @@ BIN = os.path.join(WORK, "bin", REPO_TAG)
 HARNESS = os.path.join(VERIF, "harness")
 GOENV = dict(os.environ, GOFLAGS="-mod=mod", GOPROXY="off", GOSUMDB="off", GOTOOLCHAIN="local",
              CGO_ENABLED=os.environ.get("CGO_ENABLED", "0"))
+GOENV["VERIF_REPO"] = REPO
+GOENV["VERIF_WORK"] = WORK
 FORBIDDEN = re.compile(r"\b(Admitted|admit|Axiom|Axioms|Parameter|Parameters|Conjecture|Conjectures|Abort All|"
                        r"Unset Guard Checking|Unset Positivity Checking|Unset Universe Checking|bypass_check|"
                        r"type-in-type|impredicative-set|Admit Obligations|native_compute)\b")
